@@ -34,6 +34,7 @@ static const variant_t VARS[6] = {
 
 
 static int F_RT, F_MODEL, F_TAMPER, F_ZERO, F_PAIRS;
+static unsigned long long n_special;
 static unsigned long long n_cases, n_enc, n_dec, n_verdict_acc, n_verdict_rej, n_model_cmp, n_bytes_cmp,
     n_inplace, n_forged_ok, n_zero_regions, n_zero_bytes, n_guard_end, n_guard_start, n_mid, n_null, n_pairs,
     n_ctl_pairs, n_short, n_checktag, n_long, n_adjacent;
@@ -733,6 +734,38 @@ static void huge_reject_case(const args_t *a, long idx, const variant_t *v, size
     munmap(buf, mlen + 64);
 }
 
+/* corpus entries (model/mine.c): inputs for which a keystream word or a tag half is 0 / ffffffff / equal to its
+ * neighbour, and forged SIV packets whose recomputed tag is wrong in a structured way */
+static struct { int active; uint8_t k[32], n[12], ad[64], m[64]; } OV;
+
+static void special_forge_case(const args_t *a, long idx, const variant_t *v, const uint8_t *k0, const uint8_t *n0, const uint8_t *ad0, size_t adlen,
+                               const uint8_t *pkt0, size_t plen, const char *pat)
+{
+    int vi = (int)(v - VARS), ks = vi % 3 == 0 ? 16 : vi % 3 == 1 ? 24 : 32, rc, inplace;
+    uint8_t tag[8], rec[64], *k, *n, *ad, *pk, *mo;
+    size_t blen = plen - 8, ml = 0, i;
+    char key[96];
+    set_case("{\"h\":\"aead\",\"mode\":\"special-forgery\",\"v\":\"%s\",\"i\":%ld,\"adlen\":%zu,\"clen\":%zu,\"pattern\":\"%s\"}", v->name, idx, adlen, plen, pat);
+    ++n_cases; ++n_special;
+    cls_add(mix64(0x5BEE, (uint64_t)idx));
+    if (idx % 7 == 0 || a->only >= 0) emit_sample();
+    if (vi >= 3) m_siv_open(ks, rec, tag, pkt0, blen, pkt0 + blen, ad0, adlen, n0, k0); else m_aead_open(ks, rec, tag, pkt0, blen, ad0, adlen, n0, k0);
+    if (!memcmp(tag, pkt0 + blen, 8)) return;      /* a genuine packet: not what the corpus promises, nothing to judge */
+    for (inplace = 0; inplace < 2; ++inplace) {
+        k = gb_place(&gK, (size_t)v->ks, PL_MID, (unsigned)(idx & 3), 0, 0); memcpy(k, k0, (size_t)v->ks);
+        n = gb_place(&gN, 12, PL_END, 0, 0, 0); memcpy(n, n0, 12);
+        ad = gb_place(&gAD, adlen, PL_END, 0, 0, 0); if (adlen) memcpy(ad, ad0, adlen);
+        gb_readonly(&gK); gb_readonly(&gN); gb_readonly(&gAD);
+        if (inplace) { mo = gb_place(&gM2, plen, PL_END, 0, 0, 0); memcpy(mo, pkt0, plen); pk = mo; }
+        else { pk = gb_place(&gC2, plen, PL_END, 0, 0, 0); memcpy(pk, pkt0, plen); gb_readonly(&gC2); mo = gb_place(&gM2, blen, PL_MID, (unsigned)(idx & 7), 0, 0xC3); }
+        rc = lib_dec(v, mo, &ml, pk, plen, ad, adlen, n, k); ++n_verdict_rej;
+        if (!inplace) gb_writable(&gC2);
+        if (rc == -99) continue;
+        if (rc == 0) { snprintf(key, sizeof key, "accept-forged:%s:structured-tag-difference", v->name); emit_viol(key, "a forged packet whose recomputed tag differs from the received one with %s was accepted (%s)", pat, inplace ? "in place" : "separate buffers"); }
+        else for (i = 0; i < blen; ++i) if (mo[i]) { snprintf(key, sizeof key, "plaintext-not-zeroed:%s:%s", v->name, inplace ? "inplace" : "separate"); emit_viol(key, "rejected corpus forgery left plaintext byte %zu", i); break; }
+    }
+}
+
 /* ------------------------------------------------------------------ one case */
 
 static void run_case(const args_t *a, long idx, const variant_t *v, size_t adlen, size_t mlen, int rep, int is_long)
@@ -772,6 +805,11 @@ static void run_case(const args_t *a, long idx, const variant_t *v, size_t adlen
     if (mlen) fill_class(&r, m, mlen, bc);
     if (place_ad == PL_END) ++n_guard_end; else if (place_ad == PL_START) ++n_guard_start; else ++n_mid;
     if ((!adlen || !mlen) && nullmode) ++n_null;
+    if (OV.active) {       /* corpus entry: exactly these bytes (placement, aliasing, alignment still rotate with idx / rep) */
+        memcpy(k, OV.k, (size_t)v->ks); memcpy(n, OV.n, 12);
+        if (adlen) memcpy(ad, OV.ad, adlen);
+        if (mlen) memcpy(m, OV.m, mlen);
+    }
     gb_readonly(&gK); gb_readonly(&gN); gb_readonly(&gAD); gb_readonly(&gM);
 
     scratch_need(2 * (mlen + 16));
@@ -1005,6 +1043,34 @@ int main(int argc, char **argv)
         for (vi = v0; vi < v0 + nv; ++vi, ++idx) if (mine(&a, idx)) huge_tamper_case(&a, idx, &VARS[vi]);
         NL = 0; W = -1;
     }
+    if (strstr(a.mode, "special")) {
+        FILE *f = special_open();
+        special_t sp;
+        if (!f) { if (a.batch == 0) emit_info("special corpus not available ($VERIF_SPECIAL)"); }
+        else {
+            while (special_next(f, &sp)) {
+                int siv = !strcmp(sp.tok[0], "siv"), forge = !strcmp(sp.tok[0], "sivforge"), ks, rep2;
+                if (!siv && !forge && strcmp(sp.tok[0], "aead")) continue;
+                if (sp.ntok < 7) continue;
+                ks = atoi(sp.tok[1]);
+                vi = ((siv || forge) ? 3 : 0) + (ks == 16 ? 0 : ks == 24 ? 1 : 2);
+                if (vi < v0 || vi >= v0 + nv) continue;
+                if (forge) {
+                    uint8_t fk[32], fn[12], fad[64], fp[80];
+                    size_t al, pl;
+                    special_unhex(sp.tok[2], fk, 32); special_unhex(sp.tok[3], fn, 12); al = special_unhex(sp.tok[4], fad, 64); pl = special_unhex(sp.tok[5], fp, 80);
+                    if (pl >= 8 && mine(&a, idx)) special_forge_case(&a, idx, &VARS[vi], fk, fn, fad, al, fp, pl, sp.tok[sp.ntok - 1]);
+                    ++idx;
+                } else {
+                    size_t al, ml2;
+                    special_unhex(sp.tok[2], OV.k, 32); special_unhex(sp.tok[3], OV.n, 12); al = special_unhex(sp.tok[4], OV.ad, 64); ml2 = special_unhex(sp.tok[5], OV.m, 64);
+                    for (rep2 = 0; rep2 < 9; ++rep2, ++idx) if (mine(&a, idx)) { OV.active = 1; ++n_special; run_case(&a, idx, &VARS[vi], al, ml2, rep2, 0); OV.active = 0; }
+                }
+            }
+            fclose(f);
+        }
+        NL = 0; W = -1;
+    }
     if (strstr(a.mode, "hugereject")) {
         int sh = a.p3 > 0 ? (int)a.p3 : 32;
         for (vi = v0; vi < v0 + 3; ++vi, ++idx) if (mine(&a, idx)) huge_reject_case(&a, idx, &VARS[vi], ((size_t)1 << sh) + 16);
@@ -1076,7 +1142,7 @@ int main(int argc, char **argv)
     /* (the internal comparison primitive is deliberately not called directly: its signature is not part of the API,
      *  and the batteries above drive it through all six decrypt functions with every differing byte position) */
 
-    emit_stat("evaluations", n_cases);
+    emit_stat("evaluations", n_cases); if (n_special) emit_stat("special_corpus_cases", n_special);
     emit_stat("encrypt_calls", n_enc); emit_stat("decrypt_calls", n_dec);
     emit_stat("verdicts_expected_accept", n_verdict_acc); emit_stat("verdicts_expected_reject", n_verdict_rej);
     emit_stat("model_comparisons", n_model_cmp); emit_stat("bytes_compared", n_bytes_cmp);
